@@ -432,6 +432,12 @@ func (s *shardingKeyRepo) OnAddOrUpdate(schemaMetadata schema.Metadata) {
 	measure := schemaMetadata.Spec.(*databasev1.Measure)
 	shardingKey := measure.GetShardingKey()
 	if shardingKey == nil || len(shardingKey.GetTagNames()) == 0 {
+		// An update may have removed the sharding key: forget the locator cached
+		// for the previous version, otherwise this liaison keeps sharding by the
+		// old key while a restarted one shards by entity.
+		s.RWMutex.Lock()
+		delete(s.shardingKeysMap, getID(measure.GetMetadata()))
+		s.RWMutex.Unlock()
 		return
 	}
 	l := partition.NewShardingKeyLocator(measure.TagFamilies, measure.ShardingKey)
@@ -454,10 +460,6 @@ func (s *shardingKeyRepo) OnDelete(schemaMetadata schema.Metadata) {
 		return
 	}
 	measure := schemaMetadata.Spec.(*databasev1.Measure)
-	shardingKey := measure.GetShardingKey()
-	if shardingKey == nil || len(shardingKey.GetTagNames()) == 0 {
-		return
-	}
 	id := getID(measure.GetMetadata())
 	if le := s.log.Debug(); le.Enabled() {
 		le.
